@@ -97,7 +97,7 @@ def gen_exprs(rnd, n):
             ("true.to_string('', 'no')", ''), ("false.to_string('yes', '')", ''), ("false.to_string('yes', 'no')", 'no'), ("true.to_string()", 'true'), ("false.to_string()", 'false'),
             ("'a b'.split()", ['a', 'b']), ("'a,b'.split(',')", ['a', 'b']), ("''.join(['a', 'b'])", 'ab'), ("'abc'.replace('b', '')", 'ac'), ("{'k': 0}.get('k', 5)", 0), ("{'k': ''}.get('k', 'd')", ''),
             ("'0'.to_int()", 0), ("0.to_string()", '0'), ("0.is_even()", True), ("'abc'.startswith('')", True), ("'abc'.contains('')", True), ("[0, 1].contains(0)", True), ("[''].contains('')", True),
-            *array_method_cases(),
+            *array_method_cases(), *BOOL_AS_INT_VALUES,
             ("'a\\nb'.split('\\n').length()", 2), ("'''a\\nb'''.split('\\n').length()", 1), ("'x' == 'x'", True), ('[1, 2] == [1, 2]', True)]
     return out
 
@@ -137,6 +137,13 @@ NONBOOL = ['1', "'abc'", '[]', "{'k': 1}", '[true]']
 for _v in NONBOOL:
     REJECTED += [f'x = false or {_v}', f'x = true and {_v}', f'x = {_v} or true', f'x = {_v} and true', f'x = not {_v}', f'x = {_v} ? 1 : 2',
                  f'y = [false or {_v}]', f'message(true and {_v})', f'x = false or (false or {_v})', f'if {_v}\nendif']
+
+
+# a boolean is not an integer: where the reference asks for an integer (an index, a position) a boolean is an error, and a boolean is
+# never EQUAL to an integer (membership).  Python's bool is a subclass of int, so the typed operators let it through: recorded finding.
+BOOL_AS_INT_REJECTED = ["x = [10, 20][true]", "x = 'abc'.substring(true)", "x = [1, 2].get(false)"]
+BOOL_AS_INT_VALUES = [('true in [1]', False), ('[1].contains(true)', False), ('0 in [false]', False), ('true not in [1, 2]', True)]
+REJECTED += BOOL_AS_INT_REJECTED
 
 
 def range_cases():
